@@ -192,7 +192,44 @@ def r4(ctx):
     ctx.ob('C06.R4', fn, fn.body, okk, 'raw number must be a key', 'membership test before writing a raw number: %s' % okk)
 
 
+def r8(ctx):
+    ctx.rule('C06.R8', 'the text of a number is parsed in the base it was printed in: every strtol/strtoul of the field input '
+             'parsers gets base 10 (or 16 for an explicit 0x prefix), never the automatic base 0, which reads the leading '
+             'zeros that fixed-width types (PIN) print as octal notation', minimum=3)
+    fb = ctx.fb
+    n = 0
+    for fn in fb.functions:
+        if not fn.relfile.startswith('src/lib/ebus/data') or not fn.blocks:
+            continue
+        if not (fn.name.endswith('::parseInput') or fn.name.endswith('::writeSymbols')):
+            continue
+        for c in fn.all('CallExpr'):
+            v = fn.nodes[c]
+            if v.get('callee') not in ('strtol', 'strtoul', 'strtoll', 'strtoull') or len(v.get('args', [])) < 3:
+                continue
+            n += 1
+            b = v['args'][2]
+            vals = set()
+            if fn.val(b) is not None:
+                vals = {fn.val(b)}
+            else:
+                d = fn.ref_decl(b)
+                for nid, d2, rhs, op, lhs in fn.assignments():
+                    if d2 == d and rhs is not None:
+                        r = fn.nodes.get(fn.strip(rhs), {})
+                        if r.get('k') == 'ConditionalOperator':
+                            vals |= {fn.val(r['then']), fn.val(r['else'])}
+                        else:
+                            vals.add(fn.val(rhs))
+            ok = bool(vals) and vals <= {10, 16}
+            ctx.ob('C06.R8', fn, c, ok, 'number base of %s in %s' % (v['callee'], fn.name.split('::')[-1]),
+                   'base argument can be %s' % sorted(vals, key=lambda x: (x is None, x)))
+    if n < 3:
+        raise AnalysisBroken('C06.R8: only %d strto* calls found in the field input parsers' % n)
+
+
 def run(ctx):
+    r8(ctx)
     r1(ctx)
     r2(ctx)
     r3(ctx)
